@@ -52,6 +52,8 @@ class Ctx:
         self.extra = {}
         self.clause_counts = {}
         self.findings = [f for f in load_findings() if f.get('property') == prop and f.get('status', 'open') == 'open']
+        if os.environ.get('VERIF_IGNORE_FINDINGS'):  # triage aid only (never set by registered commands)
+            self.findings = []
         self.rule = ''
         self.exhaustive = None
         os.makedirs(EVID_DIR, exist_ok=True)
